@@ -228,8 +228,16 @@ def check_discovery(chk, cf, o, loc):
                 mc = cf.strip(cn.conj(tuple(ins)))
                 if f_equiv(mc, cond) or f_equiv(mc, want) or f_equiv(mc, want0):
                     marks.append(e)
-        chk.ob("C05.pay-mark", "SubnetScan: the path that adds a discovery value also stores "
-               "discovered := True for the same address", len(marks) == 1,
-               f"{len(marks)} matching store(s)", loc)
+        others = [e for e in cf.net_effects(o) if e["kind"] == "cell"
+                  and e["fam"] == "discovered" and e["addr"] != EACH]
+        if not marks and others:
+            chk.undecided("C05.pay-mark", "SubnetScan: the path that adds a discovery value also "
+                          "stores discovered := True for the same address",
+                          f"discovered is stored for {others[0]['addr'][:160]}, not for {EACH}: the "
+                          "two ranges are not compared", loc)
+        else:
+            chk.ob("C05.pay-mark", "SubnetScan: the path that adds a discovery value also stores "
+                   "discovered := True for the same address", len(marks) == 1,
+                   f"{len(marks)} matching store(s)", loc)
     chk.ob("C05.discovery", "SubnetScan: discovery value added exactly for connected, not yet "
            "discovered addresses, starting from 0", ok, detail, loc)
